@@ -3,11 +3,16 @@ module bklsym
 go 1.26.8
 
 require (
+	github.com/gopatchy/bkl v0.0.0
 	golang.org/x/tools v0.50.0
 	gopkg.in/yaml.v3 v3.0.1
 )
 
 require (
+	github.com/pelletier/go-toml/v2 v2.2.3 // indirect
+	golang.org/x/exp v0.0.0-20250210185358-939b2ce775ac // indirect
 	golang.org/x/mod v0.41.0 // indirect
 	golang.org/x/sync v0.23.0 // indirect
 )
+
+replace github.com/gopatchy/bkl => /repo
